@@ -97,7 +97,20 @@ fn renders<D: Debug>(x: &D) -> [String; NF] {
     ]
 }
 
+thread_local! {
+    /// element comparisons made so far by a counting element type (Kv): == and the orderings
+    static CMP_CALLS: std::cell::Cell<usize> = std::cell::Cell::new(0);
+}
+fn cmp_calls_take() -> usize {
+    CMP_CALLS.with(|c| c.replace(0))
+}
+fn cmp_call() {
+    CMP_CALLS.with(|c| c.set(c.get() + 1));
+}
+
 trait Elem: Clone + PartialOrd + Debug {
+    /// does this element type count its comparisons (CMP_CALLS)?
+    const COUNTS: bool = false;
     fn dec(code: i128) -> Self;
     /// same value (bit pattern for floats: NaN is itself, -0.0 is not 0.0)
     fn same(&self, o: &Self) -> bool;
@@ -157,22 +170,33 @@ impl Elem for String {
     }
 }
 /// equality finer than the ordering: == looks at both fields, partial_cmp / cmp at the key only
-#[derive(Clone, Debug, PartialEq, Eq, Hash)]
+#[derive(Clone, Debug, Eq, Hash)]
 struct Kv {
     k: u8,
     v: u8,
 }
+/// hand-written and COUNTED: the array's == / orderings must consult the elements exactly as often as the
+/// slice's do (they stop at the first element that decides)
+impl PartialEq for Kv {
+    fn eq(&self, o: &Kv) -> bool {
+        cmp_call();
+        self.k == o.k && self.v == o.v
+    }
+}
 impl PartialOrd for Kv {
     fn partial_cmp(&self, o: &Kv) -> Option<Ordering> {
+        cmp_call();
         Some(self.k.cmp(&o.k))
     }
 }
 impl Ord for Kv {
     fn cmp(&self, o: &Kv) -> Ordering {
+        cmp_call();
         self.k.cmp(&o.k)
     }
 }
 impl Elem for Kv {
+    const COUNTS: bool = true;
     fn dec(c: i128) -> Self {
         Kv { k: (c / 256) as u8, v: (c % 256) as u8 }
     }
@@ -247,6 +271,18 @@ fn pair_common<T: Elem, N: ArrayLength>(va: &[T], vb: &[T], out: &mut Vec<i128>,
     c.that("<= differs from the slices'", le == (sa <= sb));
     c.that("> differs from the slices'", gt == (sa > sb));
     c.that(">= differs from the slices'", ge == (sa >= sb));
+    if T::COUNTS {
+        // how often the elements are consulted: the array's operators stop where the slice's stop
+        let count = |f: &dyn Fn()| {
+            let _ = cmp_calls_take();
+            f();
+            cmp_calls_take()
+        };
+        c.that("== consults the elements more or less often than the slices' ==", count(&|| { let _ = a == b; }) == count(&|| { let _ = sa == sb; }));
+        c.that("!= consults the elements more or less often than the slices' !=", count(&|| { let _ = a != b; }) == count(&|| { let _ = sa != sb; }));
+        c.that("partial_cmp consults the elements more or less often than the slices'", count(&|| { let _ = a.partial_cmp(&b); }) == count(&|| { let _ = sa.partial_cmp(sb); }));
+        c.that("< consults the elements more or less often than the slices' <", count(&|| { let _ = a < b; }) == count(&|| { let _ = sa < sb; }));
+    }
     // mixed: the array against itself is what the slice says about itself
     c.that("a == a differs from the slice's", (a == a) == (sa == sa));
     c.that("a.partial_cmp(a) differs from the slice's", a.partial_cmp(&a) == sa.partial_cmp(sa));
@@ -270,6 +306,14 @@ fn pair_full<T: Elem + Ord + Hash, N: ArrayLength>(va: &[T], vb: &[T], out: &mut
     c.that("cmp differs from the slices'", cm == va.cmp(vb));
     c.that("cmp differs from as_slice()'s", cm == a.as_slice().cmp(b.as_slice()));
     c.that("a.cmp(a) differs from the slice's", a.cmp(&a) == va.cmp(va));
+    if T::COUNTS {
+        let _ = cmp_calls_take();
+        let _ = a.cmp(&b);
+        let na = cmp_calls_take();
+        let _ = va.cmp(vb);
+        let ns = cmp_calls_take();
+        c.that("cmp consults the elements more or less often than the slices' cmp", na == ns);
+    }
     c.that("max/min differ from the slices'", {
         let mx = a.clone().max(b.clone());
         let sm: &[T] = va.max(vb);
